@@ -8,3 +8,4 @@ import Spade.Properties.C18
 #print axioms Spade.C18_code_from_to
 #print axioms Spade.C18_code_circulation
 #print axioms Spade.C18_code_direction
+#print axioms Spade.C18_code_cell_edges_once
